@@ -1,0 +1,20 @@
+//go:build verif
+
+// Ghost lemma functions for the verifier under /verif (never called; compiled
+// only with -tags verif). Their contracts are in zz_verif_contracts.go.
+
+package registration
+
+import (
+	"context"
+
+	"github.com/hashicorp/nodeenrollment"
+	"github.com/hashicorp/nodeenrollment/types"
+)
+
+// lemmaTokenSingleUse: two fetches presenting the same activation token, one after the other.
+func lemmaTokenSingleUse(ctx context.Context, storage nodeenrollment.Storage, reqA, reqB *types.FetchNodeCredentialsRequest, opt ...nodeenrollment.Option) (ra, rb *types.FetchNodeCredentialsResponse, ea, eb error) {
+	ra, ea = FetchNodeCredentials(ctx, storage, reqA, opt...)
+	rb, eb = FetchNodeCredentials(ctx, storage, reqB, opt...)
+	return
+}
